@@ -5,6 +5,7 @@
 
 mod engine;
 mod gen;
+mod lfu_suites;
 mod model;
 mod ops;
 mod subject;
@@ -119,6 +120,8 @@ fn main() {
             let out = match ctx.prop.as_str() {
                 "C01" | "C02" | "C03" | "C04" | "C06" | "C07" | "C08" | "C09" | "C10" | "C12"
                 | "C13" | "C14" | "C15" => engine_suite(&ctx),
+                "C11" => lfu_suites::c11_suite(&ctx),
+                "C20" => lfu_suites::c20_suite(&ctx),
                 other => {
                     eprintln!("unknown property {}", other);
                     std::process::exit(3);
@@ -128,6 +131,18 @@ fn main() {
                 println!("@@VIOLATION {}", found_json(f));
             }
             println!("@@SUMMARY {}", summary_json(&ctx, &out, t0.elapsed().as_secs_f64()));
+        }
+        "replay" if arg(&args, "--script").is_some() => {
+            let prop = arg(&args, "--prop").unwrap_or("C11").to_string();
+            let script = arg(&args, "--script").unwrap();
+            println!("script: {}", script);
+            match lfu_suites::replay_script(&prop, script) {
+                Some((rule, detail, step)) => {
+                    println!("@@VIOLATION {}", J::obj().set("property", J::s(prop.clone())).set("rule", J::s(rule)).set("detail", J::s(detail)).set("step", J::u(step)));
+                    println!("@@REPLAY {}", J::obj().set("violations", J::U(1)));
+                }
+                None => println!("@@REPLAY {}", J::obj().set("violations", J::U(0))),
+            }
         }
         "replay" => {
             let prop = arg(&args, "--prop").unwrap_or("C01").to_string();
